@@ -49,9 +49,10 @@ import common as C
 from gen import reports as R
 
 PROPERTY = "C10"
-LEAN_MODULES = ["LccModel.Props.C10"]
-PROPS_FILES = ["LccModel/Props/C10.lean"]
-NAMESPACES = {"LccModel/Props/C10.lean": "LccModel.C10"}
+LEAN_MODULES = ["LccModel.Props.C10", "LccModel.Props.C10Info", "LccModel.Props.C10Overlap"]
+PROPS_FILES = ["LccModel/Props/C10.lean", "LccModel/Props/C10Info.lean", "LccModel/Props/C10Overlap.lean"]
+NAMESPACES = {"LccModel/Props/C10.lean": "LccModel.C10", "LccModel/Props/C10Info.lean": "LccModel.C10",
+              "LccModel/Props/C10Overlap.lean": "LccModel.C10"}
 DRIVER = "drivers/C10.lean"
 TABLE_OPENS = ("LccModel.Saving", "LccModel.Report")
 TRUSTED_BASE = [
@@ -500,8 +501,11 @@ def own_result_status(report, event):
 class Observer:
     """subscribed LAST: runs on the handler thread after the writer and every file session handled the event"""
 
-    def __init__(self, report, sessions, on_handled=None):
+    def __init__(self, report, sessions, on_handled=None, infos=None):
         self.report, self.sessions = report, sessions
+        self.infos = {}                            # k -> [(name, value)]: `Report.add_info` calls made once event k is handled
+        for k, n, v in infos or []:
+            self.infos.setdefault(k, []).append((n, v))
         self.k = 0
         self.seen = [0] * len(sessions)
         self.copies = [[] for _ in sessions]       # per session: [(k, load result)]
@@ -523,11 +527,15 @@ class Observer:
                 n_new = be.saves - self.seen[i]
                 self.seen[i] = be.saves
                 self.copies[i].append((self.k, n_new, load_nf(path)))
+        # what a test does through `lcc.add_report_info` between two of its events: a direct mutation of the report, no event
+        for n, v in self.infos.get(self.k, ()):
+            self.report.add_info(n, v)
         if self.on_handled:
             self.on_handled(self.k)
 
 
-def run_stream(events, nb_threads, specs, top, clock_seq=None, async_mgr=True, pace=None, on_handled=None, observe=True):
+def run_stream(events, nb_threads, specs, top, clock_seq=None, async_mgr=True, pace=None, on_handled=None, observe=True,
+               infos=None, title=None):
     """specs: [(backend kind, variant, strategy expression)] → observation dict.  The report, the writer and the
     sessions are wired exactly like `Session.create` does (writer first, then one session per backend)."""
     from lemoncheesecake.reporting.report import Report
@@ -538,6 +546,11 @@ def run_stream(events, nb_threads, specs, top, clock_seq=None, async_mgr=True, p
     with patched_clock(clock):
         report = Report()
         report.nb_threads = nb_threads
+        if title is not None:
+            report.title = title                    # `Project.build_report_title()`, set by `lcc run` before the session exists
+        for k, n, v in infos or []:
+            if k == 0:
+                report.add_info(n, v)               # `Project.build_report_info()`: before the first event
         em = (AsyncEventManager if async_mgr else SyncEventManager).load()
         em.add_listener(ReportWriter(report))
         sessions = []
@@ -548,7 +561,7 @@ def run_stream(events, nb_threads, specs, top, clock_seq=None, async_mgr=True, p
             sess = be.create_reporting_session(d, report, nb_threads > 1, make_report_saving_strategy(expr))
             em.add_listener(sess)
             sessions.append((sess.path, be))
-        obs = Observer(report, sessions if observe else [], on_handled)
+        obs = Observer(report, sessions if observe else [], on_handled, infos=[x for x in (infos or []) if x[0] > 0])
         em.add_listener(obs)
         real = [R.build_event(e, report) for e in events]
         failure = None
@@ -646,9 +659,13 @@ def nf_prefix(a, b):
         embed(x["tests"], y["tests"], lambda t: t["md"]["name"], test, at)
         embed(x["suites"], y["suites"], lambda s: s["md"]["name"], suite, at)
 
-    for k in ("title", "info", "nb_threads"):
+    for k in ("title", "nb_threads"):
         if a[k] != b[k]:
             why.append("report %s changed" % k)
+    # the information lines the earlier report shows are the first lines of the later one: same names, same values, same order
+    # (`lcc.add_report_info` during the run may only ADD lines)
+    if list(b["info"][:len(a["info"])]) != list(a["info"]):
+        why.append("report info lines changed: %r is not the beginning of %r" % (a["info"], b["info"]))
     if a["end"] is not None:
         if a != b:
             why.append("report of an ended session changed")
@@ -678,7 +695,7 @@ def sibling_names_unique(nf):
 # stream generators
 # ------------------------------------------------------------------------------------------------
 
-def interleaved_events(rep, rng, parallel):
+def interleaved_events(rep, rng, parallel, overlap_p=0.3):
     """A well-formed stream whose aggregation is `rep`.  With `parallel` the tests and sub-suites of a suite are
     run by different workers (distinct thread ids) and their events are merged in a random order — what a
     multi-threaded run delivers to the handler thread."""
@@ -689,17 +706,44 @@ def interleaved_events(rep, rng, parallel):
         return tid_counter[0]
 
     def steps(loc, res, tid):
-        ev = []
+        # OVERLAPPING WORKERS inside one result (`lcc.Thread`s started by a test / setup / teardown, each logging into a step of its
+        # own): every step gets a thread id of its own and the steps' events are merged, each step's own order kept — a step that
+        # started first may end first or last, other threads' logs (hence saves) fall between two ends
+        overlap = len(res["steps"]) >= 2 and rng.random() < overlap_p
+        blocks = []
         for st in res["steps"]:
-            ev.append({"e": "stepStart", "loc": loc, "desc": st["desc"], "tid": tid, "t": st["start"] or 1})
+            stid = new_tid() if overlap else tid
+            ev = [{"e": "stepStart", "loc": loc, "desc": st["desc"], "tid": stid, "t": st["start"] or 1}]
             for e in st["entries"]:
                 x = dict(e)
                 x["e"] = x.pop("k")
-                x.update({"loc": loc, "step": st["desc"], "tid": tid, "t": e["t"] or 1})
+                x.update({"loc": loc, "step": st["desc"], "tid": stid, "t": e["t"] or 1})
                 ev.append(x)
             if st["end"]:
-                ev.append({"e": "stepEnd", "loc": loc, "desc": st["desc"], "tid": tid, "t": st["end"]})
-        return ev
+                ev.append({"e": "stepEnd", "loc": loc, "desc": st["desc"], "tid": stid, "t": st["end"]})
+            blocks.append(ev)
+        if not overlap:
+            return [e for b in blocks for e in b]
+        out = []
+        # the workers are started one after the other (the steps keep their order in the report), then run concurrently
+        started = [b.pop(0) for b in blocks]
+        k = rng.randint(1, len(started))
+        out += started[:k]
+        pending = [b for b in blocks[:k] if b]
+        later = list(zip(started[k:], blocks[k:]))
+        while pending or later:
+            if later and (not pending or rng.random() < 0.3):
+                st0, b = later.pop(0)
+                out.append(st0)
+                if b:
+                    pending.append(b)
+                continue
+            b = rng.choice(pending)
+            n = rng.randint(1, 2)
+            out += b[:n]
+            del b[:n]
+            pending = [x for x in pending if x]
+        return out
 
     def phase(kind, path, res, tid):
         if res is None:
@@ -834,6 +878,9 @@ REAL_WILD = ["plain", "non-ascii", "astral", "surrogate", "surrogate", "c0", "cr
 def gen_real_spec(rng, texts="plain"):
     """texts: what the log messages / step names passed to the REAL logging API hold ("plain" | "safe" | "wild");
     a third of the tests and suites get an explicit `name=` (dotted, dashed, …: `gen.reports.gen_node_name`)"""
+    with_info = texts != "wild" and rng.random() < 0.5
+    used = []
+
     def text(plain):
         if texts == "plain" or rng.random() < 0.5:
             return plain
@@ -854,6 +901,14 @@ def gen_real_spec(rng, texts="plain"):
                 out.append(["url", "http://x/%d" % rng.randint(0, 9)])
             else:
                 out.append(["raise"])
+        if rng.random() < 0.2:
+            # two overlapping `lcc.Thread` workers, both logging (each owns a step), the main thread logging meanwhile
+            out.insert(rng.randint(0, len(out)), ["threads", [text("a%d" % i) or "a" for i in range(rng.randint(1, 3))],
+                                                  [text("b%d" % i) or "b" for i in range(rng.randint(1, 3))], rng.random() < 0.7])
+        if with_info and rng.random() < 0.45:
+            # the test publishes a report information (few names: reused with other values by other tests)
+            out.insert(rng.randint(0, len(out)), ["info", rng.choice(INFO_NAMES), text("v%d" % rng.randint(0, 99)) or "v"])
+            used.append(1)
         return out
 
     def suite(name, depth):
@@ -876,7 +931,10 @@ def gen_real_spec(rng, texts="plain"):
         if rng.random() < 0.3 and not has_dep(out):
             out["dname"] = "%s.%s" % (name, rng.choice(["v1.2", "x", "0"]))
         return out
-    return {"suites": [suite("top%d" % i, 1) for i in range(rng.choice([1, 1, 2]))], "nb_threads": rng.choice([1, 1, 2, 3])}
+    spec = {"suites": [suite("top%d" % i, 1) for i in range(rng.choice([1, 1, 2]))], "nb_threads": rng.choice([1, 1, 2, 3])}
+    if used:
+        spec["has_info"] = True
+    return spec
 
 
 def _build_real_suites(spec):
@@ -895,6 +953,23 @@ def _build_real_suites(spec):
                     check_that("value", 1, equal_to(1 if a[1] else 2))
                 elif a[0] == "url":
                     lcc.log_url(a[1], "a url")
+                elif a[0] == "info":
+                    lcc.add_report_info(a[1], a[2])
+                elif a[0] == "threads":
+                    import time as _t
+                    def worker(msgs, pause):
+                        for m in msgs:
+                            lcc.log_info(m)
+                            _t.sleep(pause)
+                    ta = lcc.Thread(target=worker, args=(a[1], 0.001))
+                    tb = lcc.Thread(target=worker, args=(a[2], 0.004))
+                    ta.start()
+                    tb.start()
+                    if a[3]:
+                        _t.sleep(0.002)
+                        lcc.log_info("main thread goes on")
+                    ta.join()
+                    tb.join()
                 elif a[0] == "raise":
                     raise RuntimeError("generated failure")
         return run
@@ -975,7 +1050,19 @@ def run_real(spec, specs, top):
     out["status_after"] = {str(k): v for k, v in obs.status_after.items()}
     # the final report of a real run is compared as it is saved (millisecond text), see above
     fin0 = next((x["final"] for x in out["sessions"] if x["final"] and "nf" in x["final"]), None)
-    out["final_report"] = fin0["nf"] if fin0 else R.nf_report(report)
+    if not fin0:
+        # no json / xml session attached (junit only): the same millisecond text is obtained by saving the final in-memory report
+        # once through the JSON backend (`round(ts, 3)` + ISO text, like the recorded event times above) — comparing
+        # `int(round(ts * 1000))` of the floats instead was off by 1 ms on some wall-clock stamps (a false alarm of the harness)
+        from lemoncheesecake.reporting.backends.json_ import JsonBackend
+        try:
+            scratch = os.path.join(top, "final-report.js")
+            JsonBackend().save_report(scratch, report)
+            fin0 = load_nf(scratch)
+            os.unlink(scratch)
+        except Exception:
+            fin0 = None
+    out["final_report"] = fin0["nf"] if fin0 and "nf" in fin0 else R.nf_report(report)
     return recorded, out
 
 
@@ -1044,6 +1131,25 @@ def _corpus_events():
 
 
 _CORPUS_EVENTS = _corpus_events()
+
+
+def _overlap_events():
+    """`Props/C10Overlap.lean: overlapDemo`: a test whose main thread (1) and two workers (2, 3) each have a step open; worker 2,
+    started first, ends first; the main thread logs (a save under at_each_log) before worker 3 ends"""
+    t0, la = 1_600_000_000_000, {"k": "test", "path": ["s", "a"]}
+    ev = [{"e": "sessionStart"}, {"e": "suiteStart", "path": ["s"], "md": _md("s")},
+          {"e": "testStart", "path": ["s", "a"], "md": _md("a")},
+          {"e": "stepStart", "loc": la, "desc": "main", "tid": 1}, {"e": "stepStart", "loc": la, "desc": "A", "tid": 2},
+          {"e": "log", "loc": la, "step": "A", "tid": 2, "level": "info", "msg": "from A"},
+          {"e": "stepStart", "loc": la, "desc": "B", "tid": 3},
+          {"e": "log", "loc": la, "step": "B", "tid": 3, "level": "info", "msg": "from B"},
+          {"e": "stepEnd", "loc": la, "desc": "A", "tid": 2},
+          {"e": "log", "loc": la, "step": "main", "tid": 1, "level": "info", "msg": "main goes on"},
+          {"e": "stepEnd", "loc": la, "desc": "B", "tid": 3}, {"e": "stepEnd", "loc": la, "desc": "main", "tid": 1},
+          {"e": "testEnd", "path": ["s", "a"]}, {"e": "suiteEnd", "path": ["s"]}, {"e": "sessionEnd"}]
+    for i, e in enumerate(ev):
+        e["t"] = t0 + 10 * i
+    return ev
 
 
 def _intern(obs):
@@ -1160,6 +1266,134 @@ def check_sessions(events, handled, failure, sessions, status_after, final_repor
     return fails
 
 
+INFO_NAMES = ["build", "target", "campaign"]
+
+
+def gen_infos(rng, events, texts="plain"):
+    """`Report.add_info` calls around the stream: [[k, name, value]], k = number of events handled when the call is made
+    (0 = before the run, like `Project.build_report_info()`; never after the end of the session).  Few names, so that a
+    name is often published twice with different values."""
+    last = len(events) - 1 if events and events[-1]["e"] == "sessionEnd" else len(events)
+    if last < 1:
+        return []
+    out = []
+    for _ in range(rng.choice([1, 2, 2, 3, 4])):
+        k = rng.choice([0, rng.randint(1, last), rng.randint(1, last)])
+        name = rng.choice(INFO_NAMES)
+        value = "v%d" % rng.randint(0, 99)
+        if texts == "safe" and rng.random() < 0.4:
+            value += " caf\u00e9"
+        elif texts == "wild" and rng.random() < 0.5:
+            value = R.gen_string(rng, rng.choice(REAL_WILD))
+        out.append([k, name, value])
+    out.sort(key=lambda x: x[0])
+    return out
+
+
+def info_features(infos, copies_k):
+    """copies_k: the event counts at which some file was saved"""
+    f = []
+    if not infos:
+        return f
+    f.append("info-published-during-run" if any(k > 0 for k, _, _ in infos) else "info-before-run-only")
+    seen = {}
+    for k, n, v in infos:
+        if n in seen and seen[n][1] != v:
+            f.append("info-name-reused-with-other-value")
+            # a file was saved between the two calls: it shows the first value
+            if any(seen[n][0] < c <= k for c in copies_k):
+                f.append("info-name-reused-AFTER-a-save-showing-the-first-value")
+        seen[n] = (k, v)
+    return f
+
+
+def overlap_features(events, copies_k):
+    """steps of several threads open at the same time inside ONE result; the one started first ending first; a save between
+    the two ends"""
+    f = set()
+    open_steps = {}        # loc key -> [(tid, k of start)]
+    waiting = []           # (loc key, tid of the later-started step still open, k of the earlier step's end)
+    for k, e in enumerate(events, 1):
+        if e["e"] == "stepStart":
+            key = json.dumps(e["loc"], sort_keys=True)
+            lst = open_steps.setdefault(key, [])
+            if lst:
+                f.add("overlapping-steps-in-one-result")
+            lst.append((e["tid"], k))
+        elif e["e"] == "stepEnd":
+            key = json.dumps(e["loc"], sort_keys=True)
+            lst = open_steps.get(key, [])
+            mine = [x for x in lst if x[0] == e["tid"]]
+            if not mine:
+                continue
+            for w in [w for w in waiting if w[0] == key and w[1] == e["tid"]]:
+                waiting.remove(w)
+                if any(w[2] <= c < k for c in copies_k):
+                    f.add("overlap:SAVE-between-the-end-of-the-first-started-step-and-the-end-of-a-later-one")
+            later = [x for x in lst if x[1] > mine[-1][1]]
+            if later:
+                f.add("overlap:first-started-step-ends-first")
+                waiting += [(key, x[0], k) for x in later]
+            lst.remove(mine[-1])
+    return sorted(f)
+
+
+def expected_step_ends(events):
+    """from the stream alone: {location key: [[description, end time or None] in start order]} — the step a thread started is
+    the one its own stepEnd ends (`active_steps[thread_id]`)"""
+    out, mine = {}, {}
+    for e in events:
+        if e["e"] == "stepStart":
+            key = json.dumps(e["loc"], sort_keys=True)
+            out.setdefault(key, []).append([e["desc"], None])
+            mine[e["tid"]] = (key, len(out[key]) - 1)
+        elif e["e"] == "stepEnd" and e["tid"] in mine:
+            key, i = mine[e["tid"]]
+            out[key][i][1] = e["t"]
+        elif e["e"] in ("testStart", "suiteSetupStart", "suiteTeardownStart", "sessionSetupStart", "sessionTeardownStart"):
+            pass
+    return out
+
+
+def nf_result_at(nf, loc):
+    k, path = loc["k"], loc.get("path")
+    if k == "ssetup":
+        return nf["setup"]
+    if k == "steardown":
+        return nf["teardown"]
+    names = path if k in ("setup", "teardown") else path[:-1]
+    lst, s = nf["suites"], None
+    for n in names:
+        s = next((x for x in lst if x["md"]["name"] == n), None)
+        if s is None:
+            return None
+        lst = s["suites"]
+    if s is None:
+        return None
+    if k in ("setup", "teardown"):
+        return s[k]
+    t = next((t for t in s["tests"] if t["md"]["name"] == path[-1]), None)
+    return None if t is None else t["res"]
+
+
+def step_end_failures(events, final_nf):
+    """every step whose end was announced by the thread that started it is shown as ended, at that time, in the final report"""
+    fails = []
+    if not sibling_names_unique(final_nf):
+        return fails
+    for key, steps in expected_step_ends(events).items():
+        res = nf_result_at(final_nf, json.loads(key))
+        if res is None or len(res["steps"]) != len(steps):
+            continue
+        for i, ((desc, end), st) in enumerate(zip(steps, res["steps"])):
+            if end is not None and st["end"] != end:
+                fails.append(C.Failure("C10/final/step-end-differs",
+                                       "step #%d %r of %s: its thread announced the end at %s, the final report shows end=%s"
+                                       % (i, desc, key, end, st["end"])))
+                return fails
+    return fails
+
+
 def gen_backends(rng):
     """the FILE backends attached to the run, in subscription order (what `--reporting json junit` / a project's
     `default_reporting_backend_names` give): any non-empty combination of json / xml / junit, any order"""
@@ -1193,6 +1427,14 @@ class Snap(C.Stream):
          "events": _CORPUS_EVENTS[:7] + [dict(_CORPUS_EVENTS[2], t=1_600_000_000_050)] + _CORPUS_EVENTS[7:],
          "nb_threads": 1, "variant": 1, "alias": True, "every": 0, "every_backend": "xml",
          "clock": [10_000 + 250 * i for i in range(40)]},
+        # report information: a line set before the run, the same name published by the first test and again (another value) by
+        # the second one, with saves in between (every strategy but at_end_of_tests): each file shows a beginning of the final list
+        {"kind": "gen", "label": "wf", "events": _CORPUS_EVENTS, "nb_threads": 1, "variant": 0, "alias": False, "every": 1,
+         "every_backend": "json", "clock": [10_000 + 750 * i for i in range(40)], "backends": ["json", "xml"], "title": "Nightly run",
+         "infos": [[0, "campaign", "nightly"], [4, "target", "alpha"], [9, "target", "beta"], [9, "campaign", "nightly"]]},
+        # overlapping lcc.Thread workers inside one test, the first started ending first, a save (at_each_log) before the other ends
+        {"kind": "gen", "label": "wf", "events": _overlap_events(), "nb_threads": 1, "variant": 0, "alias": False, "every": 0,
+         "every_backend": "json", "clock": [10_000 + 750 * i for i in range(40)], "backends": ["json", "xml", "junit"]},
     ]
 
     def gen(self, rng, i):
@@ -1227,6 +1469,11 @@ class Snap(C.Stream):
             # the XML and JUnit backends write ElementTree text raw: a session of one of them, in a loop of its own
             case.update(texts="wild", every_backend="json", xml_strategy=rng.choice(STATIC), limited_kind=rng.choice(["xml", "xml", "junit"]),
                         backends=["json"])
+        # report information published before / during the run (`Project.build_report_info`, `lcc.add_report_info`), a report title
+        if label == "wf" and rng.random() < 0.55:
+            case["infos"] = gen_infos(rng, events, "plain" if texts == "wild" else texts)
+            if rng.random() < 0.4:
+                case["title"] = rng.choice(["Nightly run", "T", "Report of build 12"])
         return case
 
     @staticmethod
@@ -1245,16 +1492,17 @@ class Snap(C.Stream):
                 obs["events"] = events
                 obs["nb_threads"] = case["spec"]["nb_threads"]
                 return _intern(obs)
-            obs = run_stream(case["events"], case["nb_threads"], specs, os.path.join(top, "a"))
+            ikw = {"infos": case.get("infos"), "title": case.get("title")}
+            obs = run_stream(case["events"], case["nb_threads"], specs, os.path.join(top, "a"), **ikw)
             espec = [(case["every_backend"], case.get("variant", 0), "every_%ds" % case["every"])]
-            obs2 = run_stream(case["events"], case["nb_threads"], espec, os.path.join(top, "b"), clock_seq=case["clock"])
+            obs2 = run_stream(case["events"], case["nb_threads"], espec, os.path.join(top, "b"), clock_seq=case["clock"], **ikw)
             obs["every"] = obs2["sessions"][0]
             obs["every_handled"] = obs2["handled"]
             obs["every_failure"] = obs2["failure"]
             if case.get("xml_strategy"):
                 # the XML backend on texts its format cannot carry: a run of its own (a raising save stops the whole handler loop)
                 obs3 = run_stream(case["events"], case["nb_threads"], [(case.get("limited_kind", "xml"), 0, case["xml_strategy"])],
-                                  os.path.join(top, "x"))
+                                  os.path.join(top, "x"), **ikw)
                 obs["xml_run"] = {"handled": obs3["handled"], "failure": obs3["failure"], "session": obs3["sessions"][0]}
             return _intern(obs)
         finally:
@@ -1270,6 +1518,8 @@ class Snap(C.Stream):
         events = self._events(case, obs)
         fails = check_sessions(events, obs["handled"], obs["failure"], list(obs["sessions"]), obs["status_after"], obs["final_report"],
                                lambda load: _nf(obs, load))
+        if obs.get("final_report") and obs["handled"] == len(events) and case["kind"] == "gen":
+            fails += step_end_failures(events, obs["final_report"])
         if "every" in obs:      # a handler loop of its own (scripted clock)
             fails += check_sessions(events, obs["every_handled"], obs.get("every_failure"), [obs["every"]], obs["status_after"],
                                     obs["final_report"], lambda load: _nf(obs, load))
@@ -1297,6 +1547,10 @@ class Snap(C.Stream):
         nb = obs["nb_threads"] if case["kind"] == "real" else case["nb_threads"]
         req = {"op": "snap", "events": R.wire(events), "nb_threads": nb, "strategies": strategies,
                "clock": case.get("clock", [0]), "want": want}
+        if case.get("infos"):
+            req["infos"] = [[k, R.wire_str(n), R.wire_str(v)] for k, n, v in case["infos"]]
+        if case.get("title") is not None:
+            req["title"] = R.wire_str(case["title"])
         if "xml_run" in obs:
             req["xml_sessions"] = [{"s": strat_wire(case["xml_strategy"]), "enc": "utf8", "kind": case.get("limited_kind", "xml")}]
         elif any(s.get("save_errors") for s in obs["sessions"]):
@@ -1334,6 +1588,14 @@ class Snap(C.Stream):
         reports = {k: R.nf_of_desc(R.unwire(r)) for k, r in ans["reports"]}
         mprefix = {k: v for k, v in ans["prefix"]}
         final_m = R.nf_of_desc(R.unwire(ans["final"]))
+        racy_info = case["kind"] == "real" and case["spec"].get("has_info")
+        if wf_case and case.get("infos") and not ans.get("safe_acts"):
+            return "the act list (events + add_info calls) is not accepted by safeActs"
+        if racy_info:
+            # `lcc.add_report_info` is called on the test's thread while the handler thread lags behind: WHICH save first shows a
+            # line is not determined by the recorded event order; the model is compared on everything else, the oracle's prefix
+            # relation covers the lines
+            final_m = dict(final_m, info=obs["final_report"]["info"])
         if final_m != obs["final_report"]:
             return "final report differs: " + _first_diff(final_m, obs["final_report"])
         unique = sibling_names_unique(final_m)
@@ -1350,10 +1612,12 @@ class Snap(C.Stream):
                     if not dj.endswith(": equal"):
                         return "%s: JUnit document after event %d differs (model vs file): %s" % (s["spec"], c["k"], dj)
                 if c["k"] in reports and "nf" in c["load"]:
+                    if racy_info:
+                        reports[c["k"]] = dict(reports[c["k"]], info=_nf(obs, c["load"])["info"])
                     if _nf(obs, c["load"]) != reports[c["k"]]:
                         return "%s: content of the snapshot after event %d differs: %s" % (
                             s["spec"], c["k"], _first_diff(reports[c["k"]], _nf(obs, c["load"])))
-                    if unique:
+                    if unique and not racy_info:
                         py = not nf_prefix(_nf(obs, c["load"]), obs["final_report"])
                         if py != mprefix[c["k"]]:
                             return "%s: prefix relation of snapshot %d to the final report: oracle %s, Lean prefixB %s" % (
@@ -1395,6 +1659,23 @@ class Snap(C.Stream):
                     f.append("junit-saved-while-a-test-is-in-progress")
         if case.get("limited_kind"):
             f.append("limited-run-kind=" + case["limited_kind"])
+        copies_k = sorted({c["k"] for s in obs["sessions"] for c in s["copies"]})
+        f += info_features(case.get("infos"), copies_k)
+        f += overlap_features(events, copies_k + sorted(c["k"] for c in obs.get("every", {}).get("copies", [])))
+        if case.get("title") is not None:
+            f.append("title-set")
+        if case["kind"] == "real" and any(e["e"] == "stepStart" for e in events):
+            tids = {}
+            for e in events:
+                if e["e"] == "stepStart":
+                    tids.setdefault(json.dumps(e["loc"], sort_keys=True), set()).add(e["tid"])
+            if any(len(v) >= 3 for v in tids.values()):
+                f.append("real-run:lcc.Thread-workers-with-steps-of-their-own")
+        if case["kind"] == "real" and case["spec"].get("has_info"):
+            f.append("real-run-calls-add_report_info")
+            infos_seen = [tuple(map(tuple, _nf(obs, c["load"])["info"])) for s in obs["sessions"] for c in s["copies"] if "nf" in c["load"]]
+            if len(set(infos_seen)) > 1:
+                f.append("real-run:saved-files-show-different-info-lists")
         f += ["text:" + c for c in text_profile(events)]
         if "xml_run" in obs:
             x = obs["xml_run"]
@@ -1426,16 +1707,24 @@ class Snap(C.Stream):
                 yield dict(case, spec=dict(spec, nb_threads=1))
             return
         ev = case["events"]
+        inf = case.get("infos") or []
+        for i in range(len(inf)):
+            yield dict(case, infos=inf[:i] + inf[i + 1:])
+        if case.get("title") is not None:
+            yield {k: v for k, v in case.items() if k != "title"}
         for n in (len(ev) // 2, len(ev) * 3 // 4, len(ev) - 1):
             if 0 < n < len(ev):
-                yield dict(case, events=ev[:n])
+                c2 = dict(case, events=ev[:n])
+                if inf:
+                    c2["infos"] = [x for x in inf if x[0] <= n]
+                yield c2
         # drop one complete test
         for i, e in enumerate(ev):
             if e["e"] in ("testStart", "testSkipped", "testDisabled"):
                 p = e["path"]
                 rest = [x for x in ev if not (x.get("path") == p and x["e"].startswith("test"))
                         and not (x.get("loc", {}).get("path") == p and x.get("loc", {}).get("k") == "test")]
-                if len(rest) < len(ev):
+                if len(rest) < len(ev) and not inf:
                     yield dict(case, events=rest)
 
 
